@@ -137,13 +137,68 @@ def rejection_cases(su):
     return out
 
 
+def anonymous_sender_facts(su):
+    """handlers declared on objects WITHOUT id, next to ids chosen to look like generated names: every object must
+    get its own name and each handler must be connected to the object that declares it (parsed facts; enumeration)"""
+    import itertools, re
+    out = {'documents': 0, 'handlers': 0, 'problems': 0}
+    collide = ['vnode', 'vnode1', 'vnode2', 'vnode3']
+    for k in range(0, len(collide) + 1):
+        for ids in itertools.combinations(collide, k):
+            for nanon in (2, 3):
+                for ids_first in (True, False):
+                    objs = [f'    VNode {{ id: {i} }}' for i in ids]
+                    anon = [f'    VNode {{ onPinged: a.poke({n + 1}) }}' for n in range(nanon)]
+                    body = (objs + anon) if ids_first else (anon + objs)
+                    text = 'import qmluic.QtWidgets\nQDialog {\n  id: root\n  QVBoxLayout {\n    VNode { id: a }\n' + '\n'.join(body) + '\n  }\n}\n'
+                    r = D.run_cli(su.qmluic, su.work, text, 'Anon')
+                    out['documents'] += 1
+                    if r.rc != 0 or r.header is None or r.ui is None:
+                        su.res.inconc('anonymous-sender document rejected: ' + r.stderr[-300:])
+                        continue
+                    names = re.findall(r'<widget class="VNode" name="(\w+)"', r.ui)
+                    probs = []
+                    if len(set(names)) != len(names):
+                        probs.append(f'object names are not pairwise distinct: {names}')
+                    # anonymous objects in document order
+                    anon_names = [n for n in names if n != 'a' and n not in ids]
+                    hdr = cxx.Header(r.header)
+                    seen = {}
+                    for cb in hdr.callbacks():
+                        bodytxt = ' '.join(hdr.funcs['on' + cb].body)
+                        m = re.search(r'poke\((\d+)\)', bodytxt)
+                        try:
+                            sender, cls, sig, ov, lam, fwd = hdr.callback_connection(cb)
+                        except cxx.Unsupported as u:
+                            probs.append(str(u))
+                            continue
+                        if m:
+                            seen[int(m.group(1))] = sender
+                    out['handlers'] += len(seen)
+                    for n in range(nanon):
+                        want = f'this->ui_->{anon_names[n]}' if n < len(anon_names) else None
+                        if seen.get(n + 1) != want:
+                            probs.append(f'handler #{n + 1} is connected to {seen.get(n + 1)}, its declaring object is {want}')
+                    if len(set(seen.values())) != len(seen):
+                        probs.append(f'two handlers share one sender: {seen}')
+                    if probs:
+                        out['problems'] += 1
+                        d = C.new_replay_dir('C13', 'anon-%d' % out['problems'])
+                        open(d + '/Anon.qml', 'w').write(text)
+                        open(d + '/README.txt', 'w').write('qmluic generate-ui Anon.qml; ' + '; '.join(probs) + '\n')
+                        su.res.violation({'site': 'sender of anonymous object', 'shape': probs[0][:60]},
+                                         'handler on an object without id is not connected to its own object:\n' + '\n'.join(probs) + '\n' + text, d)
+    return out
+
+
 def run(res, args):
     tier = C.tier()
     rng = random.Random(C.seed())
     su = S.Suite(res, 'c13')
     su.run(callback_programs(tier, rng), 'effect-trace + connection facts', trace_and_facts_query, S.replay_trace, batch=30)
     rej = rejection_cases(su)
-    su.finish({'rejection_cases(enumerated, no solver)': rej,
+    anon = anonymous_sender_facts(su)
+    su.finish({'rejection_cases(enumerated, no solver)': rej, 'anonymous_sender_facts(parsed, enumerated)': anon,
                'bounds': '<=3 parameters, handlers on 8 signals incl. the default-argument family fired()/fired(int)/fired(int,bool)/fired(int,bool,QString); '
                          'statements as C01 plus property writes, slot calls, console.*; seeded random bodies'})
     res.assumptions += [
